@@ -1,6 +1,6 @@
 (* C14: parsing, validating, generating and formatting are pure and repeatable - partial by nature (no scheduler model).
    What is modelled: the write footprint of Generate's appends onto the slices of the File it received by value. *)
-Require Import Bebop.sys.Sys.
+Require Import Bebop.sys.Sys Bebop.sys.Appends Bebop.gen.GenAppends.
 From Coq Require Import List.
 Import ListNotations.
 
@@ -17,3 +17,18 @@ Example C14_refuted_without_clip :
   In 7 (gen_writes false [{| base := 7; len := 3; cap := 4 |}] [1] 100) /\ In 7 (caller_arrays [{| base := 7; len := 3; cap := 4 |}]).
 Proof. split; cbn; auto. Qed.
 Print Assumptions C14_footprint.
+
+(* The same for what the code does TODAY, as translator T5 reads it off func (f File) Generate on every run
+   (gen/GenAppends.v): for each receiver slice, how many append statements there are and whether the slice is cut down to
+   cap = len before every one of them.  Each slice takes a SEQUENCE of appends of any sizes. *)
+Definition C14_appends_statement : Prop :=
+  forallb (fun e => snd e) generate_appends = true /\
+  forall ss nss fresh, (forall s, In s ss -> base s < fresh) ->
+    forall b, In b (gen_writes_seq (map (fun e => snd e) generate_appends) ss nss fresh) -> ~ In b (caller_arrays ss).
+Theorem C14_appends : C14_appends_statement.
+Proof.
+  assert (H : forallb (fun e : String.string * nat * bool => snd e) generate_appends = true) by (vm_compute; reflexivity).
+  split; [exact H|]. intros ss nss fresh Hf. apply footprint_seq; [|exact Hf].
+  rewrite forallb_forall in *. intros c Hc. apply in_map_iff in Hc. destruct Hc as (e & <- & He). exact (H e He).
+Qed.
+Print Assumptions C14_appends.
